@@ -61,6 +61,11 @@ pub fn configs(prop: &str, thorough: bool) -> Vec<(Cfg, Option<usize>)> {
             for (n, init, mint) in [
                 ("dup", vec![(0u8, 1u128), (0, 1)], None),
                 ("dup3", vec![(0, 1), (1, 1), (0, 2)], None),
+                // a repeated account whose other row is empty (placeholder rows emitted by tooling)
+                ("dup-zero-later", vec![(0, 2), (0, 0)], None),
+                ("dup-zero-first", vec![(0, 0), (0, 2)], None),
+                ("dup3-zero-later", vec![(0, 2), (1, 3), (0, 0)], None),
+                ("dup-both-zero", vec![(0, 0), (1, 1), (0, 0)], None),
                 ("overflow", vec![(0, MAX), (1, 1)], None),
                 ("overflow2", vec![(0, MAX - 1), (1, 1), (2, 1)], Some((3u8, None))),
                 ("cap<initial", vec![(0, 3)], Some((3, Some(2u128)))),
@@ -306,6 +311,27 @@ pub fn configs(prop: &str, thorough: bool) -> Vec<(Cfg, Option<usize>)> {
                 c.kinds = kinds(&["Transfer", "Inc", "Dec", "TransferFrom", "BurnFrom"]);
                 c.migrate_probe = true;
                 out.push((c, None));
+            }
+            {
+                // a large pre-0.14 allowance table carried through migration: 3 owners x 12 spenders, so that
+                // owners straddle the 10th, 30th (default / maximum page size) entry in key order
+                let names: Vec<&'static str> = vec![
+                    "O0", "O1", "O2", "P00", "P01", "P02", "P03", "P04", "P05", "P06", "P07", "P08", "P09", "P10", "P11",
+                ];
+                let mut c = Cfg::base("C19/upgrade/36-allowances");
+                c.actors = names;
+                c.props = p.clone();
+                c.initial = vec![(0, 2), (1, 2), (2, 2)];
+                c.pre_allow = (0..3u8).flat_map(|o| (3..15u8).map(move |sp| (o, sp, 1 + (sp as u128 % 2)))).collect();
+                c.owners = vec![1];
+                c.spenders = vec![3];
+                c.recipients = vec![0];
+                c.amounts = vec![1];
+                c.exps = vec![ExpA::Unset];
+                c.grant_cap = Some(4);
+                c.kinds = kinds(&["TransferFrom"]);
+                c.migrate_probe = true;
+                out.push((c, Some(2)));
             }
             if thorough {
                 let mut c = Cfg::base("C19/closed/4-actors-all-pairs");
